@@ -109,6 +109,10 @@ class ThreadPool(object):
                     yield sys.exc_info()
             return
 
+        # use new queues for each call, workers of a previous call that was
+        # aborted by an exception might still put their results into the old ones
+        self.task_queue = Queue.Queue()
+        self.result_queue = Queue.Queue()
         self.pool = self._init_pool()
 
         i = 0
